@@ -31,7 +31,10 @@ def make_input(rng):
     import tskit
     from vlib import gen
     ancient = rng.random() < 0.06
-    ts = gen.sim_ts(rng, n=rng.randint(2, 8), historical=ancient, L=rng.choice([5, 20, 100, 1000]))
+    for _ in range(20):          # multiple-merger models occasionally give very long branches: cap the size
+        ts = gen.sim_ts(rng, n=rng.randint(2, 8), historical=ancient, L=rng.choice([5, 20, 100, 1000]))
+        if ts.num_mutations <= 1500:
+            break
     kinds = []
     if not ancient:
         if rng.random() < 0.25:
